@@ -304,12 +304,18 @@ func (evpool *Pool) addPendingEvidence(ev types.Evidence) error {
 	}
 
 	key := keyPending(ev)
+	// CheckEvidence re-verifies (and re-adds) light client attack evidence that
+	// is already pending: the stored value is refreshed, but the item must be
+	// counted only once.
+	alreadyPending := evpool.isPending(ev)
 
 	err = evpool.evidenceStore.Set(key, evBytes)
 	if err != nil {
 		return fmt.Errorf("can't persist evidence: %w", err)
 	}
-	atomic.AddUint32(&evpool.evidenceSize, 1)
+	if !alreadyPending {
+		atomic.AddUint32(&evpool.evidenceSize, 1)
+	}
 	return nil
 }
 
